@@ -163,7 +163,10 @@ def domain_strategy(tier, dims=(2, 3), max2=None, max3=None, min_el=1):
             nel = [draw(st.integers(min_el, m2)), draw(st.integers(min_el, m2)), 0]
         else:
             nel = [draw(st.integers(min_el, m3)) for _ in range(3)]
-        return {"nel": nel, "unit": [draw(unit), draw(unit), draw(unit)]}
+        units = [draw(unit), draw(unit), draw(unit)]
+        if draw(st.sampled_from([False] * 5 + [True])):
+            units = [draw(st.integers(1, 3)) for _ in range(3)]    # integer-typed element sizes (element_size gets an int dtype)
+        return {"nel": nel, "unit": units}
     return dom()
 
 
